@@ -249,7 +249,8 @@ class SpecTheory(object):
                 cv = z3.Const('%s_%s' % (name, var), I)
                 env[var] = cv
                 ev = SpecEval(self, env, {}, None, None)
-                self.macros[name] = (consts, cv, to_z3(ev.ev(body.elt)))
+                elt = ev.ev(body.elt)
+                self.macros[name] = (consts, cv, elt.term if isinstance(elt, AV) else to_z3(elt))     # 2-D macro: the element is a row
         for kind, name, params, types, body in pending:
             if kind == 'rec':
                 consts = [z3.Const('%s_%s' % (name, p), self._sort(t)) for p, t in zip(params, types)]
@@ -426,6 +427,8 @@ class SpecTheory(object):
         r = fn(*zargs)
         if f._spec_ret == 'int1':
             return AV(r, (fresh('len', I),))
+        if f._spec_ret == 'int2':
+            return AV(r, (fresh('rows', I), fresh('cols', I)))
         return r
 
 
